@@ -533,6 +533,12 @@ def classify(g, res):
         if UNDECIDED_PAT.search(msg):
             out['undecided'].append(msg)
             continue
+        if d.get('code'):
+            # a rustc error code (E0277, E0308, ...): the annotated text does not type-check - the verifier never
+            # ran on it, so this is undecided, never a refutation
+            out['undecided'].append('rustc error %s in the generated text (not a proof failure): %s' % (
+                (d['code'] or {}).get('code'), msg))
+            continue
         is_proof_failure = any(k in msg for k in (
             'postcondition not satisfied', 'precondition not satisfied', 'invariant not satisfied',
             'assertion failed', 'arithmetic underflow/overflow', 'decreases not satisfied',
